@@ -29,7 +29,8 @@ GUARD == 238
 VARIABLES cfg, medium, armed, last, ev
 vars == <<cfg, medium, armed, last>>
 base == <<cfg, medium, last>>   \* the actions below do not mention armed; Next / the trace spec do
-\* cfg  = [place, n, alg, aux, msize]; alg 1 = 16-bit trivial sum, 2 = CRC-16/ARC, 3 = 32-bit sum
+\* cfg  = [place, n, alg, aux, msize]; alg 1 = 16-bit trivial sum, 2 = CRC-16/ARC, 3 = 32-bit sum;
+\* aux = size of the auxiliary buffer, 9999 = none configured, 9998 = a NULL buffer configured with a non-zero size (as good as none)
 \* armed = <<>> | <<"fault", k, kind>> | <<"crash", cut, torn>>
 \* last  = what C11 needs to know about the most recent store: [prev, new, whole] or <<>>
 
@@ -135,7 +136,7 @@ ASSUME Chunkable
 ---------------------------------------------------------------------------
 Images(n) == {s \in SeqsUpTo(Octets, n) : Len(s) = n}
 BaseNext ==
-    \/ cfg = <<>> /\ \E p \in Places, n \in Sizes, a \in Algs, x \in AuxSizes : (x = 9999 \/ x <= n + 1) /\ Configure(MSize, p, n, a, x)
+    \/ cfg = <<>> /\ \E p \in Places, n \in Sizes, a \in Algs, x \in AuxSizes : (x >= 9998 \/ x <= n + 1) /\ Configure(MSize, p, n, a, x)
     \/ (cfg # <<>> /\ \E img \in Images(cfg.n) : Store(img))
     \/ (cfg # <<>> /\ \E off \in {-1, -2} \cup 0..cfg.n + 1, d \in SeqsUpTo(Octets, MinOf(cfg.n + 1, 2)) : StoreP(off, d))
     \/ Validate \/ Fetch
